@@ -262,10 +262,10 @@ func (ex *Exec) makeIface(t types.Type, x Value) Value {
 	if iv, ok := x.(*IfaceV); ok {
 		return iv
 	}
-	id := ex.G.FreshInt("iface", types.Typ[types.Int64])
-	ex.G.facts[id.Name] = append(ex.G.facts[id.Name], Gt(id, IntC(0)))
-	// a nil pointer wrapped in an interface is a non-nil interface value
-	return &IfaceV{ID: id, Dyn: t, Val: x}
+	// a value wrapped in an interface is a non-nil interface value (even when it is a nil pointer); its
+	// identity is a fresh positive constant (interface values of non-error types are never compared by the code)
+	ex.ifaceN++
+	return &IfaceV{ID: IntC(20000000 + ex.ifaceN), Dyn: t, Val: x}
 }
 
 func (ex *Exec) indexAddr(st *State, fr *Frame, v *ssa.IndexAddr) {
@@ -428,6 +428,10 @@ func (ex *Exec) valEq(st *State, a, b Value, t types.Type) *Term {
 		y, ok := b.(*IfaceV)
 		if !ok {
 			return Var(ex.G.name("eq"), SBool)
+		}
+		// an error made by an external library is never one of the repository's sentinel errors
+		if x.Lib && y.ID.IsConstInt() && ex.repoSentinel[y.ID.I.Int64()] || y.Lib && x.ID.IsConstInt() && ex.repoSentinel[x.ID.I.Int64()] {
+			return TFalse
 		}
 		return Eq(x.ID, y.ID)
 	case *SliceV:
@@ -1076,6 +1080,7 @@ func (ex *Exec) event(st *State, e *Event) {
 	e.PCLen = len(st.PC)
 	st.Events = append(st.Events, e)
 	ex.onEvent(st, e)
+	ex.onEventDiscipline(st, e)
 }
 
 func calleeName(c *ssa.CallCommon) string {
